@@ -401,6 +401,7 @@ class CaseReport:
         self.trivial = 0
         self.nondet_skipped = 0
         self.refuted = set()
+        self.over_approx = 0
         self.functions = {}
 
 
@@ -429,8 +430,9 @@ def _run_case(case, rep, timeout_ms, cross, validate, deadline):
     rep.forks = stats.forks
     rep.feas_queries = stats.feas_queries
     rep.solver_time += stats.solver_time
-    if stats.unknown_feas:
-        rep.errors.append(f"{stats.unknown_feas} feasibility queries were `unknown` (paths over-approximated)")
+    # an `unknown` feasibility answer makes the explorer follow both sides: the set of explored paths is then a
+    # superset of the feasible ones, which is sound for both verdicts (a counterexample includes its path condition)
+    rep.over_approx = stats.unknown_feas
     st = rep.solve
     for pi, pr in enumerate(paths):
         oc = Outcome(pr.kind, pr.value)
@@ -449,6 +451,8 @@ def _run_case(case, rep, timeout_ms, cross, validate, deadline):
         if r == "sat":
             rep.reach_ok += 1
         elif r == "unsat":
+            if "over-approximated" in pr.notes:
+                continue   # explored only because a feasibility query was inconclusive; it is infeasible
             rep.reach_bad += 1
             rep.errors.append(f"path {pi}: vacuous (path condition with assumptions is unsat)")
             continue
@@ -847,6 +851,7 @@ def finish_check(prop_id, reports, *, tier, seed, bounds, stubs, assumptions, t0
         "reachability_witnesses": tot["reach_ok"],
         "vacuous_paths": tot["reach_bad"],
         "canaries_refuted": tot["canaries_ok"],
+        "inconclusive_feasibility_queries_followed_both_ways": sum(getattr(r, "over_approx", 0) for r in reports),
         "validation_mismatches": tot["mismatches"],
         "validation_mismatch_examples": [m for r in reports for m in r.validation_mismatch][:5],
         "solver": {
